@@ -17,6 +17,7 @@ package hotspot
 import (
 	"fmt"
 	"math"
+	"math/bits"
 	"runtime"
 	"sync/atomic"
 	"time"
@@ -286,7 +287,14 @@ func (c *rejectTrafficShapingController) PerformChecking(arg interface{}, batchC
 			} else {
 				// refill token
 				restQps := atomic.LoadInt64(oldQpsPtr)
-				toAddTokenNum := passTime * tokenCount / (c.durationInSec * 1000)
+				// passTime * tokenCount may exceed 64 bits (large thresholds, long idle periods):
+				// take the exact 128-bit quotient and saturate it at a full bucket.
+				toAddTokenNum := maxCount
+				if hi, lo := bits.Mul64(uint64(passTime), uint64(tokenCount)); hi < uint64(c.durationInSec*1000) {
+					if q, _ := bits.Div64(hi, lo, uint64(c.durationInSec*1000)); q < uint64(maxCount) {
+						toAddTokenNum = int64(q)
+					}
+				}
 				newQps := int64(0)
 				if toAddTokenNum+restQps > maxCount {
 					newQps = maxCount - batchCount
